@@ -531,14 +531,39 @@ package eval
 //@        (= (fld (fld $ret0 node) value) (V_int64 (parseIntVal (fld (idx (old (fld $p tokens)) (old (fld $p idx))) val))))))
 //@   ensures [integer-token-accepted-iff-decimal-int64] (=> (and (< (old (fld $p idx)) (len (old (fld $p tokens)))) (= (fld (idx (old (fld $p tokens)) (old (fld $p idx))) typ) "integer"))
 //@        (= (= $ret1 ENil) (parseIntOk (fld (idx (old (fld $p tokens)) (old (fld $p idx))) val))))
+// leaf nodes at construction: a string token is the constant holding exactly its text; a name is the built-in or the
+// configured constant of that name (built-in first); a registered variable is a variable node carrying BOTH its name and
+// the key registered for that name (what the two fetcher layouts read, C11); an undefined-mode variable carries its name.
+// A parser that declines (nil, nil) leaves the cursor where it was; one that accepts advances it by exactly one token.
+//@ macro (TOKAT $p) (idx (old (fld $p tokens)) (old (fld $p idx)))
+//@ macro (LEAFSTEP $p) (and (= $ret1 ENil) (= (fld $p idx) (+ (old (fld $p idx)) 1)) (fresh $ret0) (not (= (fld $ret0 node) 0)) (fresh (fld $ret0 node)) (= (len (fld $ret0 children)) 0))
 //@ func parser.parseStr C06 C01
 //@   requires [parser] (PARSER $p)
+//@   ensures [declines-in-place] (=> (= $ret0 0) (= (fld $p idx) (old (fld $p idx))))
+//@   ensures [string-literal] (=> (not (= $ret0 0)) (and (LEAFSTEP $p) (= (fld (TOKAT $p) typ) "str") (= (fld (fld $ret0 node) flag) 1) (= (fld (fld $ret0 node) value) (V_string (fld (TOKAT $p) val)))))
 //@ func parser.parseConst C06 C01
 //@   requires [parser] (PARSER $p)
-//@ func parser.parseVariable C06 C01
+//@   ensures [declines-in-place] (=> (= $ret0 0) (= (fld $p idx) (old (fld $p idx))))
+//@   ensures [constant-by-name] (=> (not (= $ret0 0)) (let ((name (fld (TOKAT $p) val)))
+//@        (and (LEAFSTEP $p) (= (fld (TOKAT $p) typ) "ident") (= (fld (fld $ret0 node) flag) 1)
+//@             (= (fld (fld $ret0 node) value) (ite (mapin (global builtinConstants) name) (mapget (global builtinConstants) name) (mapget (fld (fld $p conf) ConstantMap) name)))
+//@             (or (mapin (global builtinConstants) name) (mapin (fld (fld $p conf) ConstantMap) name)))))
+//@   ensures [known-constant-is-taken] (=> (and (< (old (fld $p idx)) (len (old (fld $p tokens)))) (= (fld (TOKAT $p) typ) "ident")
+//@        (or (mapin (global builtinConstants) (fld (TOKAT $p) val)) (mapin (fld (fld $p conf) ConstantMap) (fld (TOKAT $p) val)))) (not (= $ret0 0)))
+//@ func parser.parseVariable C06 C01 C11
 //@   requires [parser] (PARSER $p)
-//@ func parser.parseUnknownVariable C06 C01
+//@   ensures [declines-in-place] (=> (= $ret0 0) (= (fld $p idx) (old (fld $p idx))))
+//@   ensures [variable-carries-name-and-registered-key] (=> (not (= $ret0 0)) (let ((name (fld (TOKAT $p) val)))
+//@        (and (LEAFSTEP $p) (= (fld (TOKAT $p) typ) "ident") (mapin (fld (fld $p conf) VariableKeyMap) name) (= (fld (fld $ret0 node) flag) 2)
+//@             (= (fld (fld $ret0 node) value) (V_string name)) (= (fld (fld $ret0 node) varKey) (mapget (fld (fld $p conf) VariableKeyMap) name)))))
+//@   ensures [registered-name-is-taken] (=> (and (< (old (fld $p idx)) (len (old (fld $p tokens)))) (= (fld (TOKAT $p) typ) "ident")
+//@        (mapin (fld (fld $p conf) VariableKeyMap) (fld (TOKAT $p) val))) (not (= $ret0 0)))
+//@ func parser.parseUnknownVariable C06 C01 C11
 //@   requires [parser] (PARSER $p)
+//@   ensures [declines-in-place] (=> (= $ret0 0) (= (fld $p idx) (old (fld $p idx))))
+//@   ensures [undefined-mode-variable-carries-its-name] (=> (not (= $ret0 0)) (let ((name (fld (TOKAT $p) val)))
+//@        (and (LEAFSTEP $p) (= (fld (TOKAT $p) typ) "ident") (= (fld (fld $ret0 node) flag) 2) (= (fld (fld $ret0 node) value) (V_string name))
+//@             (= (fld (fld $ret0 node) varKey) -32768) (not (mapin (global builtinOperators) name)))))
 // what a parent node looks like when it is built (the shape the passes and the evaluator rely on): exactly one of node / error;
 // an operator node has kind operator, the operator's NAME as a string value, a non-nil operator function and exactly the
 // given operands; an `if` node has kind cond, the keyword value, the condition closure, the three given operands in order
